@@ -201,7 +201,7 @@ def cell(draw, n):
 SUBS = []
 
 
-def entry(name, strategy, n=(100, 10000), shards=(1, 4)):
+def entry(name, strategy, n=(100, 2500), shards=(1, 4)):
     def deco(call):
         SUBS.append(Sub(f"C05.{name}", make_oracle(call),
                         strategy=lambda tier: strategy, n=n,
@@ -295,7 +295,7 @@ def var2h_case(draw):
             "extreme": True}
 
 
-@entry("dutils.var2h", var2h_case(), n=(100, 8000), shards=(2, 8))
+@entry("dutils.var2h", var2h_case(), n=(100, 2500), shards=(2, 8))
 def _(c):
     t0 = pd.Timestamp(year=c["year"], month=1, day=1) \
         + pd.Timedelta(seconds=c["start"])
@@ -328,7 +328,7 @@ def date_case(draw):
                                         "py_dayofyear"]))}
 
 
-@entry("c_hydrodiy_data.date-helpers", date_case(), n=(200, 10000),
+@entry("c_hydrodiy_data.date-helpers", date_case(), n=(200, 2500),
        shards=(3, 8))
 def _(c):
     f = c["fn"]
